@@ -241,8 +241,14 @@ def run_shard(shard, tier, seed):
         ctx.case(payload, nontrivial, ["has:" + t for t in types] + [f"nvars:{len(payload['variables'])}"])
         ctx.judge(payload, vio)
 
-    runner.drive(ctx, case(), one, shard["n"], seed)
+    with runner.Reach(ctx, ["models.py"]):
+        runner.drive(ctx, case(), one, shard["n"], seed)
     return ctx.to_dict()
+
+
+def finalize(results, tier, seed, coverage):
+    runner.merge_reach(results, coverage)
+    return []
 
 
 def replay(payload):
